@@ -4,7 +4,7 @@ import struct
 from core import term as T
 
 ID = "C47"
-GEN = []
+GEN = ["mutpins"]
 RULE = ("unit cases: 1-8 writers over <= 6 share numbers and <= 5 servers, k 1..4, each writer answered by a connection error, a failed test "
         "vector, or a successful write, with 0-2 extra reported shares (some carrying our checkstring), answers in random order; non-trivial = "
         "at least one error or surprise among the answers; grid cases: 1..12 servers, SDMF/MDMF, creation and update, write calls failing on "
